@@ -155,6 +155,11 @@ def run_case(case, st=None):
             p.stat[f] = v
     elif k == "state":
         p.state = case[1]
+    elif k == "state-long":
+        p.state = case[1]
+        p.comm = b"fifteen-bytes-nm"[:15]
+        if case[1] == "Z":
+            p.zombie = True
     elif k == "short":
         p.stat_nfields = case[1]
     elif k == "threads":
@@ -177,6 +182,26 @@ def run_case(case, st=None):
             p.vctx = v
         elif f == "nvctx":
             p.nvctx = v
+    if k == "name-enc":
+        # a locale whose filesystem encoding is not UTF-8 (LC_ALL=C without UTF-8 mode): names come back in THAT encoding with
+        # surrogateescape, so that os.fsencode(name) gives the kernel's bytes again
+        comm, enc_ = case[1], case[2]
+        p.comm = comm
+        saved = (psutil._common.ENCODING, psutil._pslinux.ENCODING)
+        psutil._common.ENCODING = psutil._pslinux.ENCODING = enc_
+        try:
+            got = observe(psutil, p.pid)
+        finally:
+            psutil._common.ENCODING, psutil._pslinux.ENCODING = saved
+        exp = expected(w, p)
+        exp["name"] = comm.decode(enc_, "surrogateescape")
+        bad = []
+        if "ctor" in got:
+            return [("ctor", "Process() failed: %r" % (got["ctor"],))], "ctor-fail"
+        for m, e in exp.items():
+            if got[m] != e:
+                bad.append(("%s:wrong-under-filesystem-encoding-%s" % (m, enc_), "%s: got %r, kernel facts %r (case %r)" % (m, got[m], e, case)))
+        return bad, "ok" if not bad else "mismatch"
     if k == "seq":
         # ONE Process object while the kernel's record of the (same) process changes between queries: every answer follows
         # the record as it is now (create_time: same process, same start)
@@ -240,6 +265,8 @@ def worker(chunk):
 
 
 def enc(case):
+    if case[0] == "name-enc":
+        return ["name-enc", case[1].decode("latin-1"), case[2]]
     if case[0] == "seq":
         return ["seq", [[[[f, v.decode("latin-1") if isinstance(v, bytes) else v] for f, v in ch], osv] for ch, osv in case[1]]]
     return [x.decode("latin-1") if isinstance(x, bytes) else ([y.decode("latin-1") for y in x] if isinstance(x, list) else x)
@@ -253,6 +280,8 @@ def dec(case):
         c[2] = None if c[2] is None else c[2].encode("latin-1")
     if c[0] == "threads":
         c[2] = [y.encode("latin-1") for y in c[2]]
+    if c[0] == "name-enc":
+        c[1] = c[1].encode("latin-1")
     if c[0] == "seq":
         c[1] = [([(f, v.encode("latin-1") if f == "comm" else v) for f, v in ch], osv) for ch, osv in c[1]]
     return tuple(c)
@@ -290,6 +319,12 @@ def build_cases(thorough):
             continue
         for osv in ((False, False, False), (False, True, False), (True, True, True)):
             cases.append(("seq", [([], osv[0]), (chg[a], osv[1]), (chg[b], osv[2])]))
+    for nm_ in (b"plain", b"caf\xc3\xa9", b"\xe6\x97\xa5\xe6\x9c\xac", b"\xff\xfe", b"a b)c"):
+        for enc_ in ("ascii", "latin-1", "utf-8"):
+            cases.append(("name-enc", nm_, enc_))
+    # a zombie (or any other state) whose name fills the 15 bytes: name() still answers
+    for s in STATES:
+        cases.append(("state-long", s))
     for s in STATES + ["Q", "N"]:
         cases.append(("state", s))
     for n in (50, 42, 39):
